@@ -29,7 +29,7 @@ OpCode(name) == LET i == CHOOSE i \in 1 .. Len(OpTable) : OpTable[i][1] = name I
 \* operations that may not appear inside a span (control flow "system" operations)
 ControlOps == {"SPLIT", "LOOP", "SPAN", "JOIN", "DYN", "SYSCALL", "CALL", "END", "REPEAT", "RESPAN", "HALT"}
 \* the only operation carrying an immediate value
-ImmOps == {"PUSH"}
+ImmOpNames == {"PUSH"}
 SpanOpNames == OpNames \ ControlOps
 
 \* hash domains of control blocks = opcode of the operation starting the block (programs.md)
